@@ -29,10 +29,19 @@ def layout_form(L, variant=0, seed=0):
 
     t = "${target}"
     tgt_in_repeat = "r" in L["tb"] or "r" in L["c"]
+    # how the sections of the two branches are called: unrelated names, or names of which one is a string prefix of the other
+    # at every level (s1 / s12) - paths are sequences of names, not strings
+    scheme = variant // 4 % 3
+    An = (lambda i: f"a{i}") if scheme == 0 else (lambda i: f"s{i}2") if scheme == 1 else (lambda i: f"s{i}")
+    Bn = (lambda i: f"b{i}") if scheme == 0 else (lambda i: f"s{i}") if scheme == 1 else (lambda i: f"s{i}2")
 
     def referrers():
         for i, k in enumerate(L["rb"], 1):
-            begin(k, f"a{i}")
+            begin(k, An(i))
+        own = An(len(L["rb"])) if L["rb"] else (f"c{len(L['c'])}" if L["c"] else None)
+        if own and variant >= 4:
+            # a reference to the section the referrer itself stands in (e.g. count(${section}))
+            add(type="calculate", name="ref_own_section", calculation=f"count(${{{own}}}) + {t}")
         add(type="text", name="referrer", label=f"R {t}", relevant=f"{t} = 1")
         add(type="integer", name="ref_constraint", label="RC", constraint=f". != {t}", constraint_message=f"not {t} please")
         add(type="calculate", name="ref_calc", calculation=f"{t} + 1")
@@ -59,7 +68,7 @@ def layout_form(L, variant=0, seed=0):
             add(type="end repeat")
         if tgt_in_repeat:
             # innermost repeat enclosing the target
-            chain = [(k, f"c{i}") for i, k in enumerate(L["c"], 1)] + [(k, f"b{i}") for i, k in enumerate(L["tb"], 1)]
+            chain = [(k, f"c{i}") for i, k in enumerate(L["c"], 1)] + [(k, Bn(i)) for i, k in enumerate(L["tb"], 1)]
             rep = [n for k, n in chain if k == "r"][-1]
             add(type="calculate", name="ref_ir", calculation=f"indexed-repeat({t}, ${{{rep}}}, 1)")
             add(type="calculate", name="ref_ir2", calculation=f"{t} + indexed-repeat({t}, ${{{rep}}}, position(..))")
@@ -80,7 +89,7 @@ def layout_form(L, variant=0, seed=0):
 
     def target():
         for i, k in enumerate(L["tb"], 1):
-            begin(k, f"b{i}")
+            begin(k, Bn(i))
         add(type="integer", name="target", label="T")
         for k in reversed(L["tb"]):
             end(k)
@@ -101,9 +110,11 @@ def layout_form(L, variant=0, seed=0):
     # names of repeats that nothing references by name are legal question names elsewhere in the form
     referenced = set()
     if tgt_in_repeat:
-        chain = [(k, f"c{i}") for i, k in enumerate(L["c"], 1)] + [(k, f"b{i}") for i, k in enumerate(L["tb"], 1)]
+        chain = [(k, f"c{i}") for i, k in enumerate(L["c"], 1)] + [(k, Bn(i)) for i, k in enumerate(L["tb"], 1)]
         referenced.add([n for k, n in chain if k == "r"][-1])
-    reps = [f"c{i}" for i, k in enumerate(L["c"], 1) if k == "r"] + [f"a{i}" for i, k in enumerate(L["rb"], 1) if k == "r"] + [f"b{i}" for i, k in enumerate(L["tb"], 1) if k == "r"]
+    if variant >= 4:
+        referenced.add(An(len(L["rb"])) if L["rb"] else (f"c{len(L['c'])}" if L["c"] else ""))
+    reps = [f"c{i}" for i, k in enumerate(L["c"], 1) if k == "r"] + [An(i) for i, k in enumerate(L["rb"], 1) if k == "r"] + [Bn(i) for i, k in enumerate(L["tb"], 1) if k == "r"]
     dups = [n for n in reps if n not in referenced]
     if dups and variant % 2 == 0:
         begin("g", "homonyms")
@@ -161,10 +172,10 @@ def run(rep):
     rep.add_mc(r, "MC_Refs: envelope satisfiable / canonical relative path OK / absolute OK iff not must-be-relative, all layouts")
     rep.bounds["layouts"] = {"count": len(cases), "must_be_relative": sum(1 for c in cases if c["must"])}
     rep.exhaustive = True
-    variants = [0, 1, 2, 3] if rep.tier == "thorough" else None
+    variants = list(range(12)) if rep.tier == "thorough" else None
     jobs = []
     for i, L in enumerate(cases):
-        vs = variants if variants is not None else [i % 4]
+        vs = variants if variants is not None else [i % 4, 4 + (i * 7 + i // 4) % 8]
         for v in vs:
             jobs.append({"wb": layout_form(L, v, rep.seed), "fmt": "dict", "refs": True, "tag": {"layout": L, "variant": v}, "shapes": [L, v]})
     for wb, nm, col in error_forms():
